@@ -228,6 +228,20 @@ let result_table () =
   List.iter (fun (n, e) -> Printf.printf "retryable %s %s\n" n (s_bool (is_retryable e)))
     ["send", ESend; "recv", EReceive; "timeout", ETimeout]
 
+(* ---------- ask_join (C03) ---------- *)
+let join_table () =
+  List.iter (fun (ask, t) ->
+      let name =
+        (match ask with ROk _ -> "ok" | RErr ESend -> "send" | RErr EReceive -> "recv" | RErr ETimeout -> "timeout" | RCancelled -> "cancelled")
+        ^ ":" ^ (match t with TVal v -> "val" ^ string_of_n v | TPanic -> "panic" | TAborted -> "aborted") in
+      let res = match ask_join ask t with
+        | None -> "none"
+        | Some (JOk v) -> "ok" ^ string_of_n v
+        | Some (JErr ESend) -> "send" | Some (JErr EReceive) -> "recv" | Some (JErr ETimeout) -> "timeout"
+        | Some (JJoin JPanicked) -> "join:panicked" | Some (JJoin JCancelled) -> "join:cancelled" in
+      Printf.printf "%s %s\n" name res)
+    all_join_cases
+
 (* ---------- macro decision table (C19) ---------- *)
 let coq_string (t : str) : Model.string =
   let ascii_of c =
@@ -281,6 +295,7 @@ let config_model arg =
 
 let () =
   if Array.length Sys.argv > 1 && Sys.argv.(1) = "--result-table" then (result_table (); exit 0);
+  if Array.length Sys.argv > 1 && Sys.argv.(1) = "--join-table" then (join_table (); exit 0);
   if Array.length Sys.argv > 2 && Sys.argv.(1) = "--config" then (config_model Sys.argv.(2); exit 0);
   if Array.length Sys.argv > 2 && Sys.argv.(1) = "--macro" then (macro_decide Sys.argv.(2); exit 0);
   let script = ref "" and observed = ref "" and proj = ref "full" and dump = ref false in
@@ -299,7 +314,15 @@ let () =
   (try
     List.iter (fun act ->
         incr round;
-        let after = closure (List.map (apply_action act) !cands) in
+        (* time passes one tick at a time, and the system runs to quiescence after each tick: an
+           operation begun by a hook when another one times out inside "advance 2" starts its own
+           timeout at the intermediate tick *)
+        let after =
+          match act with
+          | DAdvance k when int_of_nat k > 1 ->
+              let rec go i c = if i = 0 then c else go (i - 1) (closure (List.map (apply_action (DAdvance (nat_of_int 1))) c)) in
+              go (int_of_nat k) !cands
+          | _ -> closure (List.map (apply_action act) !cands) in
         let after =
           match obs with
           | None -> after
